@@ -42,7 +42,8 @@ def run(chk: core.Check, tier: str, seed: int) -> None:
     for params, ret in sigs:
         full = [("f", params, ret)] + HELPERS + [("gl2", ["L"], "L")]
         log = []
-        worlds.append((params, ret, probes.reg_records(full), log, probes.make_env(jp, full, log)))
+        # every third registry is installed by assigning a new mapping to env.function_extensions
+        worlds.append((params, ret, probes.reg_records(full), log, probes.make_env(jp, full, log, rebind=(len(worlds) % 3 == 1))))
     jobs = []
     for w, (params, ret, reg, log, env) in enumerate(worlds):
         for _ in range(per_sig):
